@@ -66,6 +66,23 @@ def nobits_padding(p):
     return False
 
 
+def empty_padding(p):
+    """an empty data section (no file space, not no-bits) that is an automatically addressed segment member with an
+    alignment: the first pass aligns the file position before it, later passes (address recorded, empty sections
+    excluded from the address-derived gap) do not"""
+    for g in p.segments:
+        for m in g["members"]:
+            s = p.sections[m]
+            if s["type"] != 8 and s["size"] == 0 and s["addr"] is None and s["addralign"] > 1:
+                return True
+    return False
+
+
+def kf_c06_empty_padding(case, impl):
+    p = case.meta.get("prog")
+    return p is not None and empty_padding(p) and _failure_kinds(case, impl) <= {"twice", "resave"}
+
+
 def _failure_kinds(case, impl):
     f = oracle(case, impl)
     return set(x.split(":")[0] for x in f)
